@@ -3,6 +3,8 @@ import Goflow.Gen.C05
 import Goflow.Gen.C03
 import Goflow.Gen.C04
 import Goflow.Gen.C07
+import Goflow.Gen.C15
+import Goflow.Gen.C20
 import Goflow.Gen.C17
 import Goflow.Gen.C18
 import Goflow.Gen.C19
@@ -26,6 +28,7 @@ structure DState where
   cfgs : List (String × Producer.Config) := []
   pipes : List (String × Pipe.Kind × String) := []
   pstate : List (String × Pipe.State) := []
+  staged : List (String × Pipe.Src × Nat × Bytes) := []
 
 def DState.store (st : DState) (sid : String) : Netflow.Store := (st.stores.lookup sid).getD []
 def DState.setStore (st : DState) (sid : String) (s : Netflow.Store) : DState :=
@@ -107,6 +110,35 @@ def execOp (st : DState) (line : String) : DState × Option (List String) :=
     -- the `ready`-channel protocol of the code (callResults), proved equal to the specification in Proofs/C18.lean
     (st, some ["res ok results=" ++ ",".intercalate ((Conc.Receiver.callResults true cs).map fun e => if e then "1" else "0") ++ " corrupt=0 leak=0 rebind=1"])
   | ["drain", _, _, _, _] => (st, some ["res ok stop=ok undecoded=0"])
+  | ["kafka", _, _, _, fault, _] =>
+    -- adapter under the sarama contract (Proofs/C20.lean); with a faulty broker the property asks for
+    -- Close to return, at least one error on the transport's error stream and no corrupted record
+    (st, some ["res ok delivered=ok corrupt=0 partitions=ok closed=ok errors=" ++ (if fault = "none" then "n/a" else "seen")])
+  | ["stage", pid, iphex, port, recv, hex] =>
+    match parseHex iphex, parseHex hex with
+    | some ip, some d => ({ st with staged := st.staged ++ [(pid, ⟨ip, port.toNat!⟩, recv.toNat!, d)] }, some ["res ok"])
+    | _, _ => (st, some ["bad-op"])
+  | ["par", _] =>
+    -- sequential processing in staging order: Proofs/C15.lean shows that for read-only datagrams every
+    -- order of processing gives each datagram the output it has when processed alone
+    let rec go (st : DState) (l : List (String × Pipe.Src × Nat × Bytes)) (i : Nat) (acc : List String) : DState × List String :=
+      match l with
+      | [] => (st, acc)
+      | (pid, src, recv, d) :: rest =>
+        match st.pipes.lookup pid with
+        | none => go st rest (i + 1) (acc ++ ["d " ++ toString i ++ " bad-op"])
+        | some (k, cid) =>
+          let cfg := (st.cfgs.lookup cid).getD {}
+          let ps := (st.pstate.lookup pid).getD {}
+          let o := Pipe.decodeFlow k cfg ps src recv d
+          let st' := { st with pstate := (pid, o.state) :: st.pstate.filter (fun e => e.1 != pid) }
+          let r := match o.err with
+            | none => "ok"
+            | some e => ((resLine e).drop 4).toString
+          go st' rest (i + 1) (acc ++ ["d " ++ toString i ++ " " ++ r ++ " n=" ++ toString o.msgs.length] ++ o.msgs.map FlowMsg.dump)
+    let n := st.staged.length
+    let (st', lines) := go { st with staged := [] } st.staged 0 []
+    (st', some (("res ok n=" ++ toString n) :: lines))
   | ["poison", _, _] => (st, some ["res ok"])      -- the model has no message pool: every message starts from Reset()
   | ["pkt", pid, iphex, port, recv, hex] =>
     match st.pipes.lookup pid, parseHex iphex, parseHex hex with
@@ -140,6 +172,8 @@ def genOps (prop : String) (seed n : Nat) : List String :=
   | "C03" => Gen.run seed (Gen.C03.gen n)
   | "C04" => Gen.run seed (Gen.C04.gen n)
   | "C07" => Gen.run seed (Gen.C07.gen n)
+  | "C15" => Gen.run seed (Gen.C15.gen n)
+  | "C20" => Gen.run seed (Gen.C20.gen n)
   | "C17" => Gen.run seed (Gen.C17.gen n)
   | "C18" => Gen.run seed (Gen.C18.gen n)
   | "C19" => Gen.run seed (Gen.C19.gen n)
